@@ -259,3 +259,72 @@ def sample_numbers(limit, k=400, seed=11):
         d = rnd.randint(3, len(str(limit)) - 1)
         ns.add(rnd.randrange(10 ** (d - 1), 10 ** d))
     return sorted(x for x in ns if x < limit)
+
+
+def _cjk_section(n, digits, units, one_before_unit):
+    """a number 1..9999 in CJK numerals; internal zero runs -> zero char (only when `zero` is given in digits[0])"""
+    out, started, gap = '', False, False
+    for k in (3, 2, 1, 0):
+        d = (n // 10 ** k) % 10
+        if d == 0:
+            if started and n % 10 ** k:
+                gap = True
+            continue
+        if gap and digits[0]:
+            out += digits[0]
+        gap = False
+        if d == 1 and k > 0 and not one_before_unit(k, started):
+            out += units[k]
+        else:
+            out += digits[d] + units[k]
+        started = True
+    return out
+
+
+def zh(n):
+    D = ['零', '一', '二', '三', '四', '五', '六', '七', '八', '九']
+    U = ['', '十', '百', '千']
+    if n == 0:
+        return '零'
+    secs = []
+    while n:
+        secs.append(n % 10000)
+        n //= 10000
+    names = ['', '万', '亿', '万亿']
+    out = ''
+    top = len(secs) - 1
+    for i in range(top, -1, -1):
+        s = secs[i]
+        if s == 0:
+            continue
+        # 一 is written before 十 except at the very start of the number (十二, but 一百一十, 二万零一十)
+        part = _cjk_section(s, D, U, lambda k, started, first=(i == top): not (k == 1 and not started and first))
+        if i < top and s < 1000 and out and not out.endswith('零'):
+            out += '零'
+        out += part + names[i]
+    return out
+
+
+def ja(n):
+    D = ['', '一', '二', '三', '四', '五', '六', '七', '八', '九']
+    U = ['', '十', '百', '千']
+    if n == 0:
+        return '零'
+    secs = []
+    while n:
+        secs.append(n % 10000)
+        n //= 10000
+    names = ['', '万', '億', '兆']
+    out = ''
+    for i in range(len(secs) - 1, -1, -1):
+        s = secs[i]
+        if s == 0:
+            continue
+        # no 一 before 十 / 百 / 千 (千二百), except 一千 inside a higher section (一千万)
+        part = _cjk_section(s, D, U, lambda k, started, hi=(i > 0): k == 3 and hi)
+        out += part + names[i]
+    return out
+
+
+SPELLERS['chinese'] = (zh, 'zh-cn', 10 ** 12)
+SPELLERS['japanese'] = (ja, 'ja-jp', 10 ** 4)     # beyond 万 the Japanese numerals run into the recorded findings F34 / F35
